@@ -3,6 +3,7 @@ import Mathlib.Algebra.Order.Field.Rat
 import Mathlib.Algebra.Order.Floor.Ring
 import Mathlib.Data.Rat.Floor
 import Mathlib.Algebra.BigOperators.Pi
+import Mathlib.Tactic.Positivity
 
 /-!
 # C09 — coronagraphs null what they are designed to null and pass the rest
@@ -218,5 +219,164 @@ theorem occulted_opaque_mask (F : Vector (Vector K n) m) (B : Vector (Vector K m
   simp only [hz, matVec_zeroVec]
 
 end Lyot
+
+/-! ## multi-scale coronagraphs: level bookkeeping -/
+section MultiScale
+
+/-- **Number of levels**: the finest level reaches the requested sampling `q`, and no smaller
+number of levels does (whenever the search ended within its fuel). -/
+theorem levels_spec (q s : ℚ) (fuel : ℕ) (hfuel : levels q s fuel ≤ fuel) :
+    q ≤ qLevel s (levels q s fuel - 1) ∧ ∀ j, j + 1 < levels q s fuel → qLevel s j < q := by
+  unfold levels at *
+  have h := levelSearch_spec (q / 2) s fuel 0 (by simpa using (by omega : levelSearch (q / 2) s fuel 0 1 < 0 + fuel))
+  simp only [pow_zero] at h
+  obtain ⟨h1, h2⟩ := h
+  refine ⟨?_, fun j hj => ?_⟩
+  · simp only [Nat.add_sub_cancel]; unfold qLevel; linarith
+  · have := h2 j (Nat.zero_le _) (by omega)
+    unfold qLevel; linarith
+
+example : levels 32 4 = 3 ∧ levels 1024 2 = 10 ∧ levels 2 4 = 1 := by decide +kernel
+
+/-- Pixel counts: level 0 has `2·shape` pixels, every finer level `⌊window·s⌋` on both axes. -/
+theorem level_dims (p : MSParams) (hs : 0 < p.s) :
+    dimsLevel p 0 = (2 * p.ny, 2 * p.nx) ∧ ∀ i, dimsLevel p (i + 1) = (levelPix p, levelPix p) :=
+  ⟨dimsLevel_zero p, fun i => dimsLevel_succ p i hs⟩
+
+/-- **Each level covers exactly the window of the previous one** when `window·s` is an integer
+(every integer scaling factor, and e.g. `s = 5/2` with an even window): `dims_i · δ_i = window · δ_{i-1}`
+on both axes, for every level. -/
+theorem level_extent (p : MSParams) (i m : ℕ) (hs : 0 < p.s) (hm : (p.w : ℚ) * p.s = m) :
+    dimsLevel p (i + 1) = (m, m) ∧
+    (m : ℚ) * (deltaLevel p (i + 1)).1 = p.w * (deltaLevel p i).1 ∧
+    (m : ℚ) * (deltaLevel p (i + 1)).2 = p.w * (deltaLevel p i).2 := by
+  have hL : levelPix p = m := by unfold levelPix; rw [hm]; exact floor_natCast' m
+  have hsn := hs.ne'
+  have hp : p.s ^ i ≠ 0 := pow_ne_zero _ hsn
+  refine ⟨by rw [dimsLevel_succ p i hs, hL], ?_, ?_⟩ <;>
+  · rw [← hm]; unfold deltaLevel qLevel; simp only [pow_succ]; field_simp
+
+/-- In general a finer level covers the window up to less than one of its own pixels. -/
+theorem level_extent_bounds (p : MSParams) (i : ℕ) (hs : 0 < p.s) (hny : 0 < p.ny) (hdx : 0 < p.dx) :
+    ((dimsLevel p (i + 1)).1 : ℚ) * (deltaLevel p (i + 1)).1 ≤ p.w * (deltaLevel p i).1 ∧
+    (p.w : ℚ) * (deltaLevel p i).1 < ((dimsLevel p (i + 1)).1 + 1) * (deltaLevel p (i + 1)).1 := by
+  rw [dimsLevel_succ p i hs]
+  have hws : 0 ≤ (p.w : ℚ) * p.s := by positivity
+  have hfl : ((levelPix p : ℕ) : ℚ) = ((⌊(p.w : ℚ) * p.s⌋ : ℤ) : ℚ) := by
+    unfold levelPix; rw [rat_floor_eq]
+    have : 0 ≤ ⌊(p.w : ℚ) * p.s⌋ := Int.floor_nonneg.2 hws
+    rw [← Int.cast_natCast, Int.toNat_of_nonneg this]
+  have hd : 0 < (deltaLevel p (i + 1)).1 := by
+    unfold deltaLevel; simp only
+    have := qLevel_pos p.s hs (i + 1)
+    have hn : (0 : ℚ) < p.ny := by exact_mod_cast hny
+    positivity
+  have hr : (p.w : ℚ) * (deltaLevel p i).1 = (p.w * p.s) * (deltaLevel p (i + 1)).1 := by
+    have hp : p.s ^ i ≠ 0 := pow_ne_zero _ hs.ne'
+    unfold deltaLevel qLevel; simp only [pow_succ]; field_simp
+  simp only
+  rw [hr, hfl]
+  exact ⟨mul_le_mul_of_nonneg_right (Int.floor_le _) hd.le,
+    mul_lt_mul_of_pos_right (Int.lt_floor_add_one _) hd⟩
+
+/-- The recursion the code used before D32 gives, in exact arithmetic, the same pixel counts: the
+defect was purely one of float rounding followed by truncation. -/
+theorem dims_old_eq (p : MSParams) (hs : 0 < p.s) (hny : 0 < p.ny) (hnx : 0 < p.nx) (hw : 0 < p.w)
+    (i : ℕ) : dimsLevelOld p i = dimsLevel p i := by
+  have hcl : ∀ i, numAiryOld p (i + 1) = ((p.w : ℚ) / (2 * qLevel p.s i), (p.w : ℚ) / (2 * qLevel p.s i)) := by
+    intro i
+    have hq := qLevel_pos p.s hs
+    have hwq : (0 : ℚ) < p.w := by exact_mod_cast hw
+    induction i with
+    | zero =>
+      have h1 : ((p.ny : ℚ) / 2) ≠ 0 := by positivity
+      have h2 : ((p.nx : ℚ) / 2) ≠ 0 := by positivity
+      have := (hq 0).ne'
+      simp only [numAiryOld]
+      congr 1 <;> field_simp
+    | succ k ih =>
+      have h1 : (p.w : ℚ) / (2 * qLevel p.s k) ≠ 0 := (div_pos hwq (by have := hq k; positivity)).ne'
+      have := (hq (k + 1)).ne'
+      have hqk := (hq k).ne'
+      rw [numAiryOld, ih]
+      simp only
+      congr 1 <;> field_simp
+  cases i with
+  | zero => rfl
+  | succ k =>
+    rw [dimsLevel_succ p k hs]
+    unfold dimsLevelOld
+    rw [hcl k]
+    have hp : p.s ^ k ≠ 0 := pow_ne_zero _ hs.ne'
+    have key : 2 * ((p.w : ℚ) / (2 * qLevel p.s k)) * qLevel p.s (k + 1) = p.w * p.s := by
+      unfold qLevel; rw [pow_succ]; field_simp
+    simp only [key]
+    rfl
+
+/-- **Window padding** on a square level grid of `d` pixels with a window of `w ≥ 2` samples: the
+constructor succeeds exactly when the window fits and `d − w` is even, and then pads the same
+number of samples `(d − w)/2` before and after (so the padded window has exactly `d` samples);
+in every other case the real code raises — it never produces a shifted window. -/
+theorem window_padding (d w : ℕ) (hw : 2 ≤ w) :
+    (w ≤ d ∧ (d - w) % 2 = 0 →
+      padWindow (d, d) w = .ok ((d - w) / 2) ((d - w) / 2) ∧ w + 2 * ((d - w) / 2) = d) ∧
+    (¬ (w ≤ d ∧ (d - w) % 2 = 0) → padWindow (d, d) w = .raises) := by
+  rw [padWindow_square d w hw]
+  constructor
+  · intro h; rw [if_pos h]; exact ⟨rfl, by omega⟩
+  · intro h; rw [if_neg h]
+
+/-- **Level geometry of every accepted configuration** (square pupil, window ≥ 2, at least two
+levels): the window size is even, and at every level that applies a window the grid is square
+with an even number of pixels, the window is padded symmetrically to exactly the grid shape, and
+the window's peak sample `before + w/2` is the grid's origin sample `d/2`. -/
+theorem level_geometry (p : MSParams) (lv : ℕ) (hsq : p.ny = p.nx) (hs : 0 < p.s) (hw : 2 ≤ p.w)
+    (hlv : 2 ≤ lv) (hacc : accepted p lv = true) :
+    p.w % 2 = 0 ∧ ∀ i, i + 1 < lv →
+      (dimsLevel p i).2 = (dimsLevel p i).1 ∧ p.w ≤ (dimsLevel p i).1 ∧ (dimsLevel p i).1 % 2 = 0 ∧
+      padWindow (dimsLevel p i) p.w =
+        .ok (((dimsLevel p i).1 - p.w) / 2) (((dimsLevel p i).1 - p.w) / 2) ∧
+      p.w + 2 * (((dimsLevel p i).1 - p.w) / 2) = (dimsLevel p i).1 ∧
+      ((dimsLevel p i).1 - p.w) / 2 + p.w / 2 = originIndex (dimsLevel p i).1 := by
+  have hall : ∀ i, i + 1 < lv → padWindow (dimsLevel p i) p.w ≠ .raises := by
+    intro i hi
+    unfold accepted padLevels at hacc
+    rw [List.all_eq_true] at hacc
+    have := hacc (padWindow (dimsLevel p i) p.w)
+      (List.mem_map.2 ⟨i, List.mem_range.2 (by omega), rfl⟩)
+    intro heq
+    rw [heq] at this
+    exact absurd this (by decide)
+  have hsqd : ∀ i, (dimsLevel p i).2 = (dimsLevel p i).1 := by
+    intro i
+    cases i with
+    | zero => rw [dimsLevel_zero, hsq]
+    | succ k => rw [dimsLevel_succ p k hs]
+  have hfit : ∀ i, i + 1 < lv → p.w ≤ (dimsLevel p i).1 ∧ ((dimsLevel p i).1 - p.w) % 2 = 0 := by
+    intro i hi
+    by_contra hcon
+    have hd : dimsLevel p i = ((dimsLevel p i).1, (dimsLevel p i).1) := Prod.ext rfl (hsqd i)
+    apply hall i hi
+    rw [hd]
+    exact (window_padding _ _ hw).2 hcon
+  have hw2 : p.w % 2 = 0 := by
+    have h0 := hfit 0 (by omega)
+    rw [dimsLevel_zero] at h0
+    simp only at h0
+    omega
+  refine ⟨hw2, fun i hi => ?_⟩
+  obtain ⟨h1, h2⟩ := hfit i hi
+  have hd : dimsLevel p i = ((dimsLevel p i).1, (dimsLevel p i).1) := Prod.ext rfl (hsqd i)
+  refine ⟨hsqd i, h1, by omega, ?_, by omega, by unfold originIndex; omega⟩
+  conv_lhs => rw [hd]
+  exact ((window_padding _ _ hw).1 ⟨h1, h2⟩).1
+
+/-- Non-vacuity: the default configuration (`q = 1024, s = 4, window 32`) on a 32-pixel pupil is
+accepted with six levels; an odd window is refused at level 0. -/
+example : let p : MSParams := ⟨32, 32, 1/32, 1/32, 1024, 4, 32⟩
+    levels p.q p.s = 6 ∧ accepted p 6 = true ∧ accepted { p with w := 31 } 6 = false := by
+  decide +kernel
+
+end MultiScale
 
 end HcipyVerif.Coronagraph
